@@ -9,7 +9,7 @@ import threading
 
 from harness.chainlab import SCRIPTS, SLOTS, CB
 from harness.crashio import CTL
-from harness.detloop import Gate
+from harness.detloop import Gate, NoProgress
 from harness.indexlab import IndexRun, StopRun
 
 
@@ -151,8 +151,10 @@ class MempoolRun(IndexRun):
     def settle_bp(self):
         '''Let the block processor index up to the daemon's tip and park at a poll.'''
         polled = 0
-        for _ in range(3000):
+        stalled = 0
+        for _ in range(3000 + 4 * self.tree.blocks[self.best].height):
             self.loop.run_until_idle()
+            self.check_split()
             if self.task.done():
                 exc = None if self.task.cancelled() else self.task.exception()
                 self.steps.append(self.classify_death(exc))
@@ -174,11 +176,21 @@ class MempoolRun(IndexRun):
                 other = [j for j in self.loop.pending_jobs() if not self.is_bp_job(j)
                          and not any(k in j.name for k in ('lookup_hashXs', 'lookup_utxos', 'deserialize'))]
                 free = [j for j in other if j not in getattr(self, 'hold', ())]
-                if free or other:
-                    (free or other)[0].deliver()
+                if free:
+                    free[0].deliver()
+                    continue
+                # a job the schedule is holding back is delivered here only when the block processor really waits for it
+                # (it is inside a notification's fan-out) or nothing else has moved for a long time
+                if other and (getattr(self, 'in_notify', 1) or stalled > 40):
+                    other[0].deliver()
+                    stalled = 0
                     continue
                 if not self.loop.advance():
-                    raise RuntimeError('settle_bp: deadlock')
+                    if other:
+                        other[0].deliver()
+                        continue
+                    raise NoProgress('settle_bp: deadlock')
+                stalled += 1
                 continue
             tip = self.tree.blocks[self.best]
             if g.name == 'height' and self.bp.caught_up and self.bp.reorg_count is None \
@@ -196,7 +208,13 @@ class MempoolRun(IndexRun):
                     if n > 0:
                         self.bp.force_chain_reorg(n)
             g.release()
-        raise RuntimeError('settle_bp: did not settle')
+        raise NoProgress('settle_bp: did not settle')
+
+    def no_progress_step(self, e):
+        return {'ev': 'raised', 'exc': f'the mempool / block processor cannot be driven any further: {e}'[:200]}
+
+    def check_split(self):
+        '''(the full-stack lab stops its drivers here when a notification has been held at its first suspension point)'''
 
     @staticmethod
     def is_bp_job(j):
@@ -344,7 +362,7 @@ class MempoolRun(IndexRun):
                         finally:
                             done.set()
                             ctl['parked'].set()
-                    th = threading.Thread(target=body)
+                    th = threading.Thread(target=body, daemon=True)
                     th.start()
                     ctl['parked'].wait()
                     if done.is_set():
@@ -407,6 +425,7 @@ class MempoolRun(IndexRun):
     def pump_mempool_once(self):
         '''One enabled mempool step (gate or job), FIFO.  Returns False when there is none.'''
         self.loop.run_until_idle()
+        self.check_split()
         for name in ('mp_raw', 'mp_height', 'mp_list'):
             g = self.mp_gate(name)
             if g:
@@ -426,7 +445,7 @@ class MempoolRun(IndexRun):
             other = [j for j in self.loop.pending_jobs() if not self.is_bp_job(j)
                      and not (self.window and j is self.window['job'])]
             free = [j for j in other if j not in getattr(self, 'hold', ())]
-            if free or other:
+            if free or (other and getattr(self, 'in_notify', 1)):
                 (free or other)[0].deliver()
                 self.step_mempool()
                 return True
